@@ -210,7 +210,9 @@ func extractNonce(presentation vc.VerifiablePresentation) (string, error) {
 // s2sNonceKey is used in the s2sNonceStore
 var s2sNonceKey = []string{"s2s", "nonce"}
 
-// s2sNonceStore is used by the authorization server for replay prevention by keeping track of used nonces in the s2s flow
+// s2sNonceStore is used by the authorization server for replay prevention by keeping track of used nonces in the s2s flow.
+// A presentation is accepted from (created - max. clock skew) until (expires + max. clock skew),
+// so a nonce must be remembered for the max. validity plus twice the max. clock skew.
 func (r Wrapper) s2sNonceStore() storage.SessionStore {
-	return r.storageEngine.GetSessionDatabase().GetStore(s2sMaxPresentationValidity+s2sMaxClockSkew, s2sNonceKey...)
+	return r.storageEngine.GetSessionDatabase().GetStore(s2sMaxPresentationValidity+2*s2sMaxClockSkew, s2sNonceKey...)
 }
